@@ -13,7 +13,7 @@ const apiZeroArgsLight = `"", nil, 0, nil, nil, nil, nil, nil, nil, nil, time.Ti
 
 // Packages whose import makes building and linting a module much slower
 // (large dependency graphs); only a quarter of the packages use them.
-var heavyRe = regexp.MustCompile(`\b(http|tls|x509|template|exec|net|url|elliptic|big|flag)\.|\br\.Header|w\.WriteHeader`)
+var heavyRe = regexp.MustCompile(`\b(http|tls|x509|exec|net|url|elliptic|big|flag)\.|\br\.Header|w\.WriteHeader`)
 
 var (
 	lightTemplates []int
@@ -838,7 +838,7 @@ func (g *gen) exoCall(stmt string) string {
 		return stmt
 	}
 	switch g.intn(0, 11, "exocall") {
-	case 0:
+	case 0, 3:
 		// recorded finding: SA1001 asserts that the callee of a matched call is a selector expression
 		if strings.HasSuffix(callee, ".Parse") && !g.include("sa1001-parenthesised-callee") {
 			return stmt
@@ -885,7 +885,7 @@ func (g *gen) apiStmt(d int) string {
 // apiFunc is family g: a function whose body is a sequence of API call shapes.
 func (g *gen) apiFunc() {
 	g.needExoHelpers()
-	if g.chance(12, "pkglevel") {
+	if g.chance(20, "pkglevel") {
 		g.apiPackageLevel()
 		return
 	}
@@ -907,7 +907,7 @@ func (g *gen) apiPackageLevel() {
 	g.unit("api", g.inTest(), func() string {
 		g.dep(g.exoHelpers)
 		var lines []string
-		for tries := 0; tries < 40 && len(lines) < 3; tries++ {
+		for tries, want := 0, g.intn(2, 6, "npkglevel"); tries < 60 && len(lines) < want; tries++ {
 			tmpl := apiTemplates[lightTemplates[g.intn(0, len(lightTemplates)-1, "api")]]
 			if strings.HasPrefix(tmpl, "§") || strings.Contains(tmpl, "\n") || !assignPrefixRe.MatchString(tmpl) {
 				continue
